@@ -94,6 +94,26 @@ class C12(Prop):
             yield {"kind": "src", "src": t["template"], "templates": t.get("templates") or {},
                    "data": [t.get("data") or {}]}
 
+        # empty and blank branches under every combination of the adjacent markers: a tag that str() drops or
+        # moves takes its whitespace control with it
+        marks = ("", "-", "~", "+")
+        datas = [{"a": True, "b": False, "xs": [1]}, {"a": False, "b": True, "xs": []}]
+        for e in ("", " \n", "y "):
+            for l1 in marks:
+                for r1 in marks:
+                    for l2 in marks:
+                        mid = "{%" + l1 + " else " + r1 + "%}" + e + "{%" + l2 + " end"
+                        for src in (
+                            "{% if a %}x  " + mid + "if %}|",
+                            "{% unless a %} x\n" + mid + "unless %}|",
+                            "{% for i in xs %}x  " + mid + "for %}|",
+                            "{% case a %}{% when true %}x  " + mid + "case %}|",
+                            "{% if a %}x  {%" + l1 + " elsif b " + r1 + "%}" + e + "{%" + l2 + " else %} z{% endif %}|",
+                            "{% case a %}{%" + l1 + " when true " + r1 + "%}" + e + "{%" + l2 + " when false %} z{% endcase %}|",
+                            "[ {%" + l1 + " if a " + r1 + "%}" + e + "{%" + l2 + " endif %} ]",
+                        ):
+                            yield {"kind": "src", "src": src, "templates": {}, "data": datas}
+
     def budget_s(self, tier: str) -> float:
         return 240 if tier == "quick" else 3000
 
